@@ -397,3 +397,36 @@ func VP_C05_MetaballConj() {
 	vp.Assert(vp.And(vpEqC(mb.Min(), bmin), vpEqC(mb.Max(), bmax)), "transformed metaball reports the transformed bounds")
 	vp.Reach("end")
 }
+
+// VP_C03_TransformBounds: the bounds TransformSolid reports are a valid box
+// that contains the image of every point of the wrapped solid's box (so the
+// CheckedFuncSolid box in front of the pulled-back membership test does not
+// cut the shape), per transform kind.
+func VP_C03_TransformBounds() {
+	x := vpNewBoxSolid("A")
+	p := vpPoint("p")
+	vp.Assume(vpInBox(p, x.Min(), x.Max()))
+	var t Transform
+	var mn, mx Coord3D
+	if vp.Param("kind") == 3 {
+		// any matrix, singular ones included; TransformSolid's box is
+		// exactly ApplyBounds of the wrapped box (the other kinds go through
+		// TransformSolid itself), and the matrix inverse is not needed here
+		m := &Matrix3{}
+		for i := range m {
+			m[i] = vp.Float64("m")
+		}
+		t = &Matrix3Transform{Matrix: m}
+		mn, mx = t.ApplyBounds(x.Min(), x.Max())
+	} else {
+		t, _ = vpTransform(vp.Param("kind"))
+		ts := TransformSolid(t, x)
+		mn, mx = ts.Min(), ts.Max()
+	}
+	vp.Assert(vp.All(mn.X <= mx.X, mn.Y <= mx.Y, mn.Z <= mx.Z), "TransformSolid reports min <= max")
+	q := t.Apply(p)
+	vp.Assert(vp.And(q.X >= mn.X, q.X <= mx.X), "image of every point of the box is inside the reported bounds (x)")
+	vp.Assert(vp.And(q.Y >= mn.Y, q.Y <= mx.Y), "image of every point of the box is inside the reported bounds (y)")
+	vp.Assert(vp.And(q.Z >= mn.Z, q.Z <= mx.Z), "image of every point of the box is inside the reported bounds (z)")
+	vp.Reach("end")
+}
